@@ -146,6 +146,11 @@ def walBytes (wal : List (String × Update)) : Nat := (wal.map lineBytes).foldl 
 
 /-! ### FilePersist -/
 
+/-- the shard after its buffer went to batch file `b` (add_batch, clear, save_shard_meta). -/
+def flushedShard (sh : Shard) (b : List Update) : Shard :=
+  { batches := sh.batches ++ [b], buffer := [], upper := max sh.upper (upperOf sh.buffer),
+    diskBatches := sh.batches ++ [b], diskUpper := max sh.upper (upperOf sh.buffer) }
+
 /-- `flush` (persist/mod.rs:581). -/
 def flush (c : Codec) (e : Engine) (s : String) : R :=
   match aget e.shards s with
@@ -155,10 +160,7 @@ def flush (c : Codec) (e : Engine) (s : String) : R :=
     match c.batch sh.buffer with
     | .error k => (e, some k)                 -- nothing was changed yet
     | .ok b =>
-      let up := max sh.upper (upperOf sh.buffer)
-      let bs := sh.batches ++ [b]
-      ({ e with shards := aset e.shards s { batches := bs, buffer := [], upper := up, diskBatches := bs, diskUpper := up },
-                wal := walRemove c e.wal s, walBuf := [] }, none)
+      ({ e with shards := aset e.shards s (flushedShard sh b), wal := walRemove c e.wal s, walBuf := [] }, none)
 
 def flushMany (c : Codec) : Engine → List String → R
   | e, [] => (e, none)
@@ -169,18 +171,25 @@ def flushMany (c : Codec) : Engine → List String → R
 
 def dirty (e : Engine) : List String := (e.shards.filter (fun p => !p.2.buffer.isEmpty)).map (·.1)
 
-/-- `append` (persist/mod.rs:400). -/
+/-- WAL part of `append` (persist/mod.rs:406-421): (file, BufWriter) after writing the lines `ents`. -/
+def walAppend (e : Engine) (ents : List (String × Update)) : List (String × Update) × List (String × Update) :=
+  match e.cfg.mode with
+  | .immediate => (e.wal ++ ents, e.walBuf)       -- append + flush + sync_all
+  | .batched => (e.wal, e.walBuf ++ ents)         -- stays in the BufWriter
+  | .async => (e.wal, e.walBuf)                   -- no WAL at all
+
+/-- first half of `append` (persist/mod.rs:400-441): WAL by durability mode, then the shard buffer. -/
+def appendCore (e : Engine) (s : String) (us : List Update) : Engine :=
+  let w := walAppend e (us.map (fun u => (s, u)))
+  let sh := (aget e.shards s).getD {}
+  { e with wal := w.1, walBuf := w.2,
+           shards := aset e.shards s { sh with buffer := sh.buffer ++ us, upper := max sh.upper (upperOf us) } }
+
+/-- `append` (persist/mod.rs:400): buffer-full flush (:442-447), else WAL-size `flush_all` (:448-459). -/
 def append (c : Codec) (e : Engine) (s : String) (us : List Update) : R :=
   if us.isEmpty then (e, none) else
-  let ents := us.map (fun u => (s, u))
-  let e1 : Engine := match e.cfg.mode with
-    | .immediate => { e with wal := e.wal ++ ents }
-    | .batched => { e with walBuf := e.walBuf ++ ents }
-    | .async => e
-  let sh := (aget e1.shards s).getD {}
-  let sh' : Shard := { sh with buffer := sh.buffer ++ us, upper := max sh.upper (upperOf us) }
-  let e2 := setShard e1 s sh'
-  if sh'.buffer.length ≥ e.cfg.buffer then flush c e2 s
+  let e2 := appendCore e s us
+  if ((aget e2.shards s).getD {}).buffer.length ≥ e.cfg.buffer then flush c e2 s
   else if e.cfg.walMax > 0 && walBytes e2.wal > e.cfg.walMax then flushMany c e2 (dirty e2)
   else (e2, none)
 
@@ -232,6 +241,12 @@ def deleteLive (ex rm : List Tuple) : List Tuple := ex.filter (fun t => !(rm.any
 
 def mkUpdates (ts : List Tuple) (time : Nat) (diff : Int) : List Update := ts.map (fun t => { data := t, time := time, diff := diff })
 
+/-- "relation already exists with a different arity" (mod.rs:459). -/
+def arityMismatch (e : Engine) (rel : String) (ar : Nat) : Bool :=
+  match aget e.arity rel with
+  | some a => a != ar
+  | none => false
+
 /-- `insert_tuples_into` (mod.rs:419); the string is the harness's rendering of the result. -/
 def insert (c : Codec) (e : Engine) (rel : String) (ts : List Tuple) : Engine × String :=
   match ts with
@@ -239,7 +254,7 @@ def insert (c : Codec) (e : Engine) (rel : String) (ts : List Tuple) : Engine ×
   | first :: _ =>
     let ar := first.length
     if !(ts.all (fun t => t.length == ar)) then (e, "err:arity-batch")
-    else if (match aget e.arity rel with | some a => a != ar | none => false) then (e, "err:arity-rel")
+    else if arityMismatch e rel ar then (e, "err:arity-rel")
     else
       let time := e.time
       let e1 := ensureShard { e with time := time + 1 } rel
@@ -306,17 +321,25 @@ def replay : List (String × Shard) → List (String × Update) → List (String
 
 def maxUpper (m : List (String × Shard)) : Nat := m.foldl (fun a p => max a p.2.upper) 0
 
-/-- drop the engine and run `StorageEngine::new` on the same directory. -/
-def restart (c : Codec) (e : Engine) : R :=
+/-- drop the engine, then `FilePersist::new` (persist/mod.rs:128): load the shard metas, replay the
+    WAL into the buffers and, if anything was replayed, flush every dirty shard. -/
+def reopenPersist (c : Codec) (e : Engine) : R :=
   let walFile := e.wal ++ e.walBuf                       -- dropping the BufWriter flushes it
   let entries := walRead c walFile
   let e1 : Engine := { cfg := e.cfg, shards := replay (e.shards.map (fun p => (p.1, loadShard p.2))) entries, wal := walFile }
-  let r : R := if entries.isEmpty then (e1, none) else flushMany c e1 (dirty e1)
-  match r with
+  if entries.isEmpty then (e1, none) else flushMany c e1 (dirty e1)
+
+/-- `load_all_knowledge_graphs` (storage_engine/mod.rs:1653): every shard is read, consolidated to the
+    current state, and the positive tuples become the relation (non-empty relations only). -/
+def loadKgs (e : Engine) : Engine :=
+  let rels := (e.shards.map (fun p => (p.1, recoverRel p.2))).filter (fun p => !p.2.isEmpty)
+  { e with live := rels, arity := rels.map (fun p => (p.1, (p.2.headD []).length)), time := maxUpper e.shards + 1 }
+
+/-- drop the engine and run `StorageEngine::new` on the same directory. -/
+def restart (c : Codec) (e : Engine) : R :=
+  match reopenPersist c e with
   | (e2, some k) => ({ e2 with dead := true }, some k)
-  | (e2, none) =>
-    let rels := (e2.shards.map (fun p => (p.1, recoverRel p.2))).filter (fun p => !p.2.isEmpty)
-    ({ e2 with live := rels, arity := rels.map (fun p => (p.1, (p.2.headD []).length)), time := maxUpper e2.shards + 1 }, none)
+  | (e2, none) => (loadKgs e2, none)
 
 /-! ### histories -/
 
